@@ -166,6 +166,11 @@ pub fn load_known_findings() -> Vec<KnownFinding> {
         .collect()
 }
 
+/// Is this failure signature a recorded, still-open finding for the property?
+pub fn is_known(property: &str, signature: &str) -> bool {
+    load_known_findings().iter().any(|k| k.status == "known" && k.property == property && k.signature == signature)
+}
+
 // ---------------------------------------------------------------------------------------------
 // statistics
 
